@@ -1,7 +1,7 @@
 //! ANS coder: protocol runner (real code), case generator and implementation-level oracles.
 use constriction::stream::stack::AnsCoder;
 use constriction::stream::{Code, Decode, Encode};
-use constriction::backends::{Cursor, ReadWords, WriteWords};
+use constriction::backends::{Cursor, ReadWords, Reverse, WriteWords};
 use constriction::{BitArray, CoderError, Pos, Seek, Stack};
 use num_traits::AsPrimitive;
 
@@ -10,7 +10,7 @@ use crate::util::*;
 
 pub trait AnsCombo {
     type W: BitArray + Into<Self::S>;
-    type S: BitArray + AsPrimitive<Self::W>;
+    type S: BitArray + AsPrimitive<Self::W> + From<Self::W>;
     /// `None` = this (B, P) is not compiled in
     fn enc<Bk: WriteWords<Self::W>>(c: &mut AnsCoder<Self::W, Self::S, Bk>, b: u32, p: u32, cp: Option<(u128, u128)>) -> Option<String>;
     fn dec<Bk: ReadWords<Self::W, Stack>>(c: &mut AnsCoder<Self::W, Self::S, Bk>, b: u32, p: u32, cdf: &[u128]) -> Option<String>;
@@ -353,6 +353,28 @@ fn run_hist<C: AnsCombo>(segs: &[Vec<&str>]) -> String {
                     let (l, s) = coder.pos();
                     format!("{} {}", hex(l as u128), hex(to_u128(s)))
                 }
+                // `Seek` on the coder's own `Vec` backend: to the current position (`pos == len`, nothing is
+                // truncated) and to a position `k` words below it
+                ["seekself"] => {
+                    let p = coder.pos();
+                    match coder.seek(p) {
+                        Ok(()) => "ok".into(),
+                        Err(()) => "err".into(),
+                    }
+                }
+                ["seekrel", k, s] => {
+                    if !fits(parse_hex(s)?, sbits) { return None; }
+                    let (l, _) = coder.pos();
+                    let k = parse_hex(k)?;
+                    if k > l as u128 {
+                        "unsupported".into()
+                    } else {
+                        match coder.seek((l - k as usize, from_u128(parse_hex(s)?))) {
+                            Ok(()) => "ok".into(),
+                            Err(()) => "err".into(),
+                        }
+                    }
+                }
                 ["seek", l, s] => {
                     if !fits(parse_hex(s)?, sbits) || parse_hex(l)? > usize::MAX as u128 { return None; }
                     match coder.seek((parse_hex(l)? as usize, from_u128(parse_hex(s)?))) {
@@ -395,7 +417,47 @@ fn run_cursor<C: AnsCombo>(segs: &[Vec<&str>], decoder: bool) -> String {
     };
     outs.push("ok".into());
     let start = if decoder { 2 } else { 1 };
+    // `rev`: `AnsCoder::into_reversed` (Cursor -> Reverse<Cursor> and back); while reversed the coder lives in `rcoder`
+    let mut rcoder: Option<AnsCoder<C::W, C::S, Reverse<Cursor<C::W, Vec<C::W>>>>> = None;
     for seg in &segs[start..] {
+        if seg.as_slice() == ["rev"] {
+            let r = guarded(|| {
+                if let Some(rc) = rcoder.take() {
+                    coder = rc.into_reversed();
+                } else {
+                    let c = std::mem::replace(&mut coder, AnsCoder::from_raw_parts(Cursor::new_at_write_beginning(Vec::new()), from_u128::<C::S>(0)));
+                    rcoder = Some(c.into_reversed());
+                }
+            });
+            match r {
+                Ok(()) => { outs.push("ok".into()); continue; }
+                Err(class) => { outs.push(class.into()); break; }
+            }
+        }
+        if let Some(rc) = rcoder.as_mut() {
+            let r = guarded(|| -> Option<String> {
+                Some(match seg.as_slice() {
+                    ["enc", b, p, cum, pr] => C::enc(rc, parse_hex(b)? as u32, parse_hex(p)? as u32, Some((parse_hex(cum)?, parse_hex(pr)?))).unwrap_or("unsupported".into()),
+                    ["encnone", b, p] => C::enc(rc, parse_hex(b)? as u32, parse_hex(p)? as u32, None).unwrap_or("unsupported".into()),
+                    ["dec", b, p, cdf] => C::dec(rc, parse_hex(b)? as u32, parse_hex(p)? as u32, &parse_list(cdf)?).unwrap_or("unsupported".into()),
+                    ["raw"] => {
+                        // canonical view: the words on the stack, bottom first
+                        let cur = &rc.bulk().0;
+                        let l = cur.pos();
+                        format!("{} {}", show_list(cur.buf()[l..].iter().rev().map(|&w| to_u128(w))), hex(to_u128(rc.state())))
+                    }
+                    ["empty"] => format!("{}", rc.is_empty()),
+                    ["nw"] => hex(rc.num_words() as u128),
+                    _ => "unsupported".into(),
+                })
+            });
+            match r {
+                Ok(Some(s)) => outs.push(s),
+                Ok(None) => { outs.push("bad-op".into()); break; }
+                Err(class) => { outs.push(class.into()); break; }
+            }
+            continue;
+        }
         let r = guarded(|| -> Option<String> {
             Some(match seg.as_slice() {
                 ["enc", b, p, cum, pr] => C::enc(&mut coder, parse_hex(b)? as u32, parse_hex(p)? as u32, Some((parse_hex(cum)?, parse_hex(pr)?))).unwrap_or("unsupported".into()),
@@ -812,8 +874,14 @@ pub fn gen_history(rng: &mut Rng, w: u32, s: u32, bps: &[(u32, Vec<u32>)], maxle
             27 => "iter".into(),
             28 => (*rng.pick(&["nw", "nb", "nvb", "empty"])).into(),
             29 => (*rng.pick(&["clone", "clone", "intovec", "maybefull", "mexh", "clear"])).into(),
-            30 => if rng.chance(1, 2) { "pos".into() } else {
-                format!("{} {:x} {:x} {} {:x}", if rng.chance(1, 2) { "asdec" } else { "intodec" }, b, p, show_list(cdf.clone()), rng.next() % 4)
+            30 => match rng.next() % 3 {
+                0 => "pos".into(),
+                1 => if rng.chance(1, 2) { "pos | seekself | raw".into() } else {
+                    // a valid coder state: at least 2^(S-W) (the words below stay where they are)
+                    let st = pow2(s - w).wrapping_add(rng.bits_biased(s - w));
+                    format!("seekrel {:x} {:x} | raw", rng.next() % 3, if s < 128 { st & (pow2(s) - 1) } else { st })
+                },
+                _ => format!("{} {:x} {:x} {} {:x}", if rng.chance(1, 2) { "asdec" } else { "intodec" }, b, p, show_list(cdf.clone()), rng.next() % 4),
             },
             _ => "raw".into(),
         };
@@ -834,9 +902,20 @@ fn gen_cursor_line(rng: &mut Rng, w: u32, s: u32, bps: &[(u32, Vec<u32>)]) -> St
         models.push((b, p, gen_cdf(rng, p)));
     }
     let n = rng.next() % 30;
+    // `rev` toggles (into_reversed): in a third of the lines, also right at the start (empty bulk)
+    let with_rev = rng.chance(1, 3);
+    let mut reversed = false;
+    if with_rev && rng.chance(1, 2) {
+        line.push_str(" | rev");
+        reversed = true;
+    }
     for _ in 0..n {
         let (b, p, cdf) = rng.pick(&models).clone();
-        let op = match rng.next() % 12 {
+        if with_rev && rng.chance(1, 6) {
+            line.push_str(" | rev");
+            reversed = !reversed;
+        }
+        let op = match if reversed { rng.next() % 10 } else { rng.next() % 12 } {
             0..=6 => {
                 // prefer improbable symbols: they flush words quickly
                 let mut best = 0;
@@ -855,6 +934,12 @@ fn gen_cursor_line(rng: &mut Rng, w: u32, s: u32, bps: &[(u32, Vec<u32>)]) -> St
         };
         line.push_str(" | ");
         line.push_str(&op);
+        if reversed && rng.chance(1, 3) {
+            line.push_str(*rng.pick(&[" | raw", " | nw", " | empty"]));
+        }
+    }
+    if reversed {
+        line.push_str(" | raw | rev");
     }
     line.push_str(" | getc | raw");
     line
@@ -872,6 +957,15 @@ fn gen_seekdec_line(rng: &mut Rng, w: u32, s: u32, bps: &[(u32, Vec<u32>)]) -> S
     let (b, p) = pick_bp(rng, bps);
     let cdf = gen_cdf(rng, p);
     let k = rng.next() % 14;
+    // a third of the lines convert the freshly built decoder with `into_reversed` right away (its bulk
+    // may be empty: short data sits entirely in `state`), decode while reversed, and convert back
+    if rng.chance(1, 3) {
+        line.push_str(" | rev");
+        for _ in 0..(rng.next() % 6) {
+            line.push_str(&format!(" | dec {:x} {:x} {}", b, p, show_list(cdf.clone())));
+        }
+        line.push_str(" | raw | empty | rev | raw");
+    }
     for _ in 0..k {
         let op = match rng.next() % 8 {
             0..=2 => {
@@ -1241,6 +1335,60 @@ fn oracle_combo<C: AnsCombo>(rng: &mut Rng, w: u32, s: u32, bps: &[(u32, Vec<u32
                 }
                 rep.count(if owned { "C07.owned" } else { "C07.borrowed" });
             }
+            // the coder's own `Vec` backend (no conversion): (a) a checkpoint on the encoder, a few more
+            // symbols (often too few to flush a word, so the checkpoint is the current position), seek back;
+            // (b) a consuming decoder `from_compressed(into_compressed())`, whose bulk ends exactly at the
+            // last snapshots; both must accept every recorded snapshot and then pop the right symbols
+            for variant in 0..2 {
+                let mut vec_dec: AnsCoder<C::W, C::S> = if variant == 0 {
+                    enc.clone()
+                } else {
+                    match AnsCoder::from_compressed(enc.clone().into_compressed().unwrap()) { Ok(c) => c, Err(_) => break }
+                };
+                let mut dv = d7.clone();
+                if variant == 0 {
+                    // extra symbols beyond the last snapshot
+                    for _ in 0..(rng.next() % 4) {
+                        let mi = (rng.next() % 3) as usize;
+                        let (b, p, cdf) = models[mi].clone();
+                        let sym = rng.below(cdf.len() as u128 - 1) as usize;
+                        C::enc_sym(&mut vec_dec, b, p, &cdf, sym).unwrap();
+                        dv.push_str(&format!(" | enc {:x} {:x} {:x} {:x}", b, p, cdf[sym], cdf[sym + 1] - cdf[sym]));
+                    }
+                } else {
+                    dv.push_str(" | reload");
+                }
+                // snapshots in decreasing order (seeking on a Vec truncates), starting at the last one
+                let mut i = n;
+                loop {
+                    rep.eval("C07");
+                    rep.count(if snaps[i].0 == vec_dec.bulk().len() { "C07.vec.seek_to_current_len" } else { "C07.vec.seek_below_len" });
+                    dv.push_str(&format!(" | seek {:x} {:x}", snaps[i].0, to_u128(snaps[i].1)));
+                    if vec_dec.seek(snaps[i]).is_err() {
+                        rep.fail("C07", format!("{} => seek to recorded snapshot {} refused by the Vec-backed coder ({} words on its bulk)", dv, i, vec_dec.bulk().len()));
+                        break;
+                    }
+                    let k = if i == 0 { 0 } else { 1 + rng.below(i as u128) as usize };
+                    let mut bad = None;
+                    for j in ((i - k)..i).rev() {
+                        let (mi, sym) = msg[j];
+                        let (b, p, cdf) = models[mi].clone();
+                        dv.push_str(&format!(" | dec {:x} {:x} {}", b, p, show_list(cdf.clone())));
+                        let o = C::dec(&mut vec_dec, b, p, &cdf).unwrap();
+                        if o != hex(sym as u128) {
+                            bad = Some((j, o));
+                            break;
+                        }
+                    }
+                    if let Some((j, o)) = bad {
+                        rep.fail("C07", format!("{} => after seek to snapshot {} on the Vec-backed coder: symbol {} decoded as {} expected {:x}", dv, i, j, o, msg[j].1));
+                        break;
+                    }
+                    if i == 0 || k == 0 { break; }
+                    i -= k;
+                    if rng.chance(1, 2) { break; }
+                }
+            }
             // beyond the data
             rep.eval("C07");
             let beyond = (total_words + 1 + (rng.next() % 3) as usize, snaps[0].1);
@@ -1326,6 +1474,62 @@ fn oracle_combo<C: AnsCombo>(rng: &mut Rng, w: u32, s: u32, bps: &[(u32, Vec<u32
                 if before != after {
                     rep.fail("C08", format!("{} | getc | raw => get_compressed() {} changed the coder from {:?} to {:?}", d9, if r.is_some() { "then drop" } else { "refused (backend full)" }, before.0, after.0));
                 }
+            }
+            // C01 across backend conversions: the same history on a Cursor-backed coder that is converted with
+            // `into_reversed` (Cursor <-> Reverse<Cursor>) at random points - also while nothing has been
+            // flushed yet - and on a Vec-backed twin: every result and the final content must agree
+            {
+                let capr = 4 + (rng.next() % 12) as usize;
+                let mut fwd: Option<AnsCoder<C::W, C::S, Cursor<C::W, Vec<C::W>>>> =
+                    Some(AnsCoder::from_raw_parts(Cursor::new_at_write_beginning(vec![from_u128::<C::W>(0); capr]), from_u128::<C::S>(0)));
+                let mut rev: Option<AnsCoder<C::W, C::S, Reverse<Cursor<C::W, Vec<C::W>>>>> = None;
+                let mut twin: AnsCoder<C::W, C::S> = AnsCoder::new();
+                let mut dr = format!("ansc {:x} {:x} {:x}", w, s, capr);
+                let mut bad: Option<String> = None;
+                for _ in 0..(rng.next() % 40) {
+                    if rng.chance(1, 5) {
+                        dr.push_str(" | rev");
+                        rep.count("C01.into_reversed");
+                        if fwd.as_ref().map(|c| c.bulk().pos() == 0).unwrap_or(false) {
+                            rep.count("C01.into_reversed.empty_bulk");
+                        }
+                        if let Some(c) = fwd.take() { rev = Some(c.into_reversed()); } else { fwd = Some(rev.take().unwrap().into_reversed()); }
+                    }
+                    let mi = (rng.next() % 3) as usize;
+                    let (b, p, cdf) = models[mi].clone();
+                    let (o1, o2);
+                    if rng.chance(2, 3) {
+                        let sym = rng.below(cdf.len() as u128 - 1) as usize;
+                        let cp = Some((cdf[sym], cdf[sym + 1] - cdf[sym]));
+                        dr.push_str(&format!(" | enc {:x} {:x} {:x} {:x}", b, p, cdf[sym], cdf[sym + 1] - cdf[sym]));
+                        o1 = match (fwd.as_mut(), rev.as_mut()) { (Some(c), _) => C::enc(c, b, p, cp).unwrap(), (_, Some(c)) => C::enc(c, b, p, cp).unwrap(), _ => unreachable!() };
+                        if o1 == "full" { break; } // the bounded buffer is exhausted: end of the comparable history
+                        o2 = C::enc(&mut twin, b, p, cp).unwrap();
+                    } else {
+                        dr.push_str(&format!(" | dec {:x} {:x} {}", b, p, show_list(cdf.clone())));
+                        o1 = match (fwd.as_mut(), rev.as_mut()) { (Some(c), _) => C::dec(c, b, p, &cdf).unwrap(), (_, Some(c)) => C::dec(c, b, p, &cdf).unwrap(), _ => unreachable!() };
+                        o2 = C::dec(&mut twin, b, p, &cdf).unwrap();
+                    }
+                    rep.eval("C01");
+                    let e1 = match (fwd.as_ref(), rev.as_ref()) { (Some(c), _) => c.is_empty(), (_, Some(c)) => c.is_empty(), _ => unreachable!() };
+                    if o1 != o2 || e1 != twin.is_empty() {
+                        bad = Some(format!("{} | empty => {} {} on the Cursor-backed coder but {} {} on a Vec-backed twin without conversions", dr, o1, e1, o2, twin.is_empty()));
+                        break;
+                    }
+                }
+                if bad.is_none() {
+                    if rev.is_some() { dr.push_str(" | rev"); fwd = Some(rev.take().unwrap().into_reversed()); }
+                    let c = fwd.take().unwrap();
+                    let held: Vec<u128> = c.bulk().buf()[..c.bulk().pos()].iter().map(|&w| to_u128(w)).collect();
+                    let (tb, ts) = twin.clone().into_raw_parts();
+                    let tw: Vec<u128> = tb.iter().map(|&w| to_u128(w)).collect();
+                    rep.eval("C01");
+                    if held != tw || to_u128(c.state()) != to_u128(ts) {
+                        bad = Some(format!("{} | raw => {} {:x} but a Vec-backed twin without conversions holds {} {:x}", dr, show_list(held), to_u128(c.state()), show_list(tw), to_u128(ts)));
+                    }
+                }
+                if let Some(m) = bad { rep.fail("C01", m); }
+                rep.sample("C01", || dr.clone());
             }
             // everything pushed before (and between) the failures still pops
             for &(mi, sym) in pushed.iter().rev() {
